@@ -4,12 +4,9 @@ package c16
 
 import (
 	"fmt"
-	"path/filepath"
-	"runtime"
 	"testing"
 
 	"github.com/cockroachdb/errors"
-	"github.com/cockroachdb/errors/errbase"
 	"pgregory.net/rapid"
 
 	"verif/gen"
@@ -81,16 +78,13 @@ func checkSource(c *pbt.Case, r *pbt.R) {
 		if ok != wok || file != wf || line != wl || fn != wfn {
 			r.Failf("GetOneLineSource does not report the innermost recorded stack of the chain"+where, "got %s:%d %s ok=%v, innermost stack layer %d (%s) has %s:%d %s\n%s", file, line, fn, ok, inner, ls[inner].Typ, wf, wl, wfn, c.Spec)
 		}
-		// (b) ... which is the first program counter that layer recorded,
-		// resolved by the Go runtime.
-		if sp, isSP := objs[inner].(errbase.StackTraceProvider); isSP && len(sp.StackTrace()) > 0 {
-			pc := uintptr(sp.StackTrace()[0]) - 1
-			if f := runtime.FuncForPC(pc); f != nil {
-				rf, rl := f.FileLine(pc)
-				if filepath.Base(rf) != file || rl != line {
-					r.Failf("GetOneLineSource is not the first recorded frame of the innermost stack"+where, "got %s:%d, runtime says %s:%d\n%s", file, line, rf, rl, c.Spec)
-				}
-			}
+	}
+	// (b) ... which is the first program counter that layer recorded,
+	// resolved by the Go runtime (read from the local error also when
+	// the observed one was transferred).
+	if mf, ml, has, known := gen.ModelSource(c.Spec, e); known {
+		if has != ok || (has && (mf != file || ml != line)) {
+			r.Failf("GetOneLineSource is not the first recorded frame of the innermost stack"+where, "got %s:%d ok=%v, runtime says %s:%d has=%v\n%s", file, line, ok, mf, ml, has, c.Spec)
 		}
 	}
 	causeOnlyBetween := false
